@@ -59,7 +59,7 @@ ASSUMPTIONS = [
 ] + ["(pbt) " + x for x in c20pbt.ASSUMPTIONS] + ["(early) " + x for x in c20early.ASSUMPTIONS]
 RULE = ("cases: (loop) real Tuner runs with pause-and-resume schedulers (promotion Hyperband, PASHA, synchronous Hyperband, DEHB, "
         "PBT) on the scripted backend with delete_checkpoints on/off and the removal callback, every order of results inside a "
-        "poll; (hb) the real promotion-type HyperbandScheduler: a trial that received STOP is never resumed; (sync) the real "
+        "poll (with deletion off any deletion is a finding); (hb) the real promotion-type HyperbandScheduler: a trial that received STOP is never resumed; (sync) the real "
         "synchronous scheduler: a trial reported by trials_checkpoints_can_be_removed is never resumed; (early) real Tuner runs "
         "with promotion-type HyperbandScheduler (promotion, pasha, cost_promotion, rush_promotion) constructed with "
         "early_checkpoint_removal_kwargs (max_num_checkpoints 2..6, estimator-based callback with varied prior_beta_mean / "
